@@ -338,6 +338,8 @@ func c07HandleOps(hi int) []string {
 		// rewind (also a directory handle), then try to write once more
 		fmt.Sprintf("h.seek %d 0 0", hi), fmt.Sprintf("h.writeat %d 5a 0", hi), fmt.Sprintf("h.close %d", hi),
 		fmt.Sprintf("h.write %d 5a", hi), fmt.Sprintf("h.writestring %d 5753", hi), fmt.Sprintf("h.readfrom %d 5246", hi),
+		// an explicit Close followed by a deferred one: the second Close of a handle is as harmless as the first
+		fmt.Sprintf("h.close %d", hi), fmt.Sprintf("h.write %d 5b", hi),
 	}
 }
 
